@@ -1,10 +1,12 @@
 pub mod c01;
+pub mod c02;
 
 use engine::Space;
 
 pub fn build(id: &str, tier: &str, _seed: u64) -> Option<Box<dyn Space + Sync + Send>> {
     Some(match id {
         "C01" => Box::new(c01::C01::new(tier)),
+        "C02" => Box::new(c02::C02::new(tier)),
         _ => return None,
     })
 }
